@@ -17,7 +17,7 @@ Driver of the C20 model (belief projection). One request line in, one response l
   supersede <old> <new> <t|->            SUPERSEDE ASSERTION old BY new at instant t (same)
   route <name>                           harness-side marker (which route the real code is driven by); `ok`
   project <target>
-  slotproject                            every Proposition of the slot, `|`-separated
+  slotproject                            every Proposition of the slot, `|`-separated, then `slot accepted=<props> contested=<0|1>`
 
 modes: letters o(bserved) s(tated) i(nferred) p(redicted) h(ypothetical) m (imported), `-`/`e` = empty list;
 in `settings` a `?` letter is a value that is not a mode. A row's mode `?` = unparsable.
@@ -192,7 +192,9 @@ def step (st : St) (line : String) : St × String :=
     | none => (st, "bad-op")
   | ["slotproject"] =>
     let rs := projectSlot st.pol st.now st.rows st.functional st.slot
-    (st, if rs.isEmpty then "-" else " | ".intercalate (rs.map (fun r => s!"p={r.1} " ++ showAnswer r.2)))
+    let sum := slotSummary rs
+    (st, if rs.isEmpty then "-" else " | ".intercalate (rs.map (fun r => s!"p={r.1} " ++ showAnswer r.2))
+      ++ s!" | slot accepted={showNats sum.accepted} contested={if sum.contested then 1 else 0}")
   | _ => (st, "bad-op")
 
 end AndaVerif.DrvC20
